@@ -68,6 +68,7 @@ static void on_write(SimSocket* s, const uint8_t* buf, int n) { static char h[60
     if (slave && slave->serverMode == CS104_MODE_SINGLE_REDUNDANCY_GROUP && n > 6 && (buf[2] & 1) == 0) evq_seen(hid_of_sock[s->id], buf + 6, n - 6); }
 static int kwin_fail = 0; static char kwin_info[300];
 /* ---- C18 oracle: event grammar per connection OPENED (ACTIVATED DEACTIVATED)* ACTIVATED? CLOSED?, accounting ---- */
+extern long mem_live, mem_allocs, mem_frees; void mem_forget_all(void);
 static int life_fail = 0; static char life_info[400]; static int ev_state[4096];   /* 0 none, 1 opened/deactivated, 2 activated, 3 closed */
 static void life_event(int hid, int ev)
 {
@@ -167,6 +168,9 @@ static void flush_obs(void) { fprintf(impl, "%s", loglen ? logbuf : "-"); loglen
 static void op_new(int mode, int k, int w, int t0, int t1, int t2, int t3, int maxopen, int lowq, int highq, int rep, int scot, int sca)
 {
     if (slave) { CS104_Slave_stopThreadless(slave); CS104_Slave_destroy(slave); slave = NULL; }
+    /* C18 accounting: everything the previous server allocated has been freed */
+    if (mem_live != 0 && !life_fail++) snprintf(life_info, sizeof life_info, "at ops-file offset %ld: %ld allocations of the library are still live after CS104_Slave_destroy (allocs %ld, frees %ld): resources not released", (long) ftell(ops), mem_live, mem_allocs, mem_frees);
+    mem_forget_all();
     sim_reset(); n_hid = 0; n_answers = answers_pos = 0; evq_cnt = 0;
     fprintf(ops, "s.new %d %d %d %d %d %d %d %d %d %d %d %d %d\n", mode, k, w, t0, t1, t2, t3, maxopen, lowq, highq, rep, scot, sca); fflush(ops);
     slave = CS104_Slave_create(lowq, highq);
